@@ -348,6 +348,11 @@ Theorem tables_order_independent M o1 o2 : Permutation o1 o2 ->
   Permutation (s_tables (gen M o1)) (s_tables (gen M o2)).
 Proof. intros P. unfold gen; cbn. now apply Permutation_map. Qed.
 
+(* generation is a function of the class model and the emission order: no hidden state, nothing depends on what was
+   generated before (the implementation is compared against this by regenerating in the same interpreter) *)
+Theorem generation_is_a_function M order s1 s2 : s1 = gen M order -> s2 = gen M order -> s1 = s2.
+Proof. congruence. Qed.
+
 (* ---------------------------------------------------------------- refutation witnesses (defect classes outside F) *)
 Definition fld (n : string) (sh : shape) (ep : endpoint) : field := {| f_name := n; f_shape := sh; f_ep := ep; f_default := true |}.
 Definition kls (n : string) (bases : list string) (fs : list field) : cls :=
